@@ -44,6 +44,9 @@ def gen_tree(rng, b, depth=0):
             if rng.random() < 0.4:
                 member.append(("w", ("n", [("v", ("l", rng.choice(DT), b[1:]))])))
             out.append((k, ("lz", [member] * b[0])))
+        elif r < 0.14 and k.isalpha():
+            # a tensorclass instance (two tensor fields, one string field) as an entry
+            out.append((k, ("tc", rng.choice([torch.float32, torch.int16, torch.uint8]), rng.choice(["T", "tag1", "x"]))))
         elif (depth < 2 and r < 0.25) or (depth == 2 and r < 0.15):
             out.append((k, ("n", gen_tree(rng, b, depth + 1))))
         elif r < 0.35:
@@ -62,6 +65,9 @@ def build(spec, b, device, base=0):
             d[k] = mk_tensor(None, v[1], v[2], (base * 7 + i * 3 + 1) % 19)
         elif v[0] == "nt":
             d[k] = NonTensorData(v[1], batch_size=b)
+        elif v[0] == "tc":
+            import c11_trips
+            d[k] = c11_trips.tc_cls()(u=mk_tensor(None, v[1], b + [2], (base + i) % 17), v=mk_tensor(None, torch.int16, b, (base + i + 1) % 17), tag=v[2], batch_size=b)
         elif v[0] == "lz":
             from tensordict import LazyStackedTensorDict
             d[k] = LazyStackedTensorDict(*[build(m, b[1:], device, base + 11 * (j + 1) + i) for j, m in enumerate(v[1])], stack_dim=0)
@@ -70,15 +76,24 @@ def build(spec, b, device, base=0):
     return TensorDict(d, batch_size=b, device=device)
 
 
+def tc_fields(tc):
+    """the non-tensor fields of a tensorclass as one atom: `name=value,…` (what its meta.json carries besides `_type`)"""
+    return ",".join(f"{k}={v}" for k, v in sorted(tc._non_tensordict.items())) or "nofields"
+
+
 def td_sx(td):
     """(n (batch) device (key tree)…) in the tensordict's own key order; device as saved (memmap is cpu)"""
-    from tensordict import LazyStackedTensorDict, NonTensorData, TensorDictBase
+    from tensordict import LazyStackedTensorDict, NonTensorData, TensorDictBase, is_tensorclass
     if isinstance(td, LazyStackedTensorDict):
         return sx("lz", td.stack_dim, *[[str(i), Raw(td_sx(m))] for i, m in enumerate(td.tensordicts)])
+    if is_tensorclass(td) and not isinstance(td, NonTensorData):
+        return sx("tc", type(td).__name__, tc_fields(td), ["_tensordict", Raw(td_sx(td._tensordict))])
     parts = ["n", list(td.batch_size), "cpu"]
     for k, v in td.items():
         if isinstance(v, NonTensorData):
             parts.append([k, ["nt", v.data, list(v.batch_size)]])
+        elif is_tensorclass(v):
+            parts.append([k, Raw(td_sx(v))])
         elif isinstance(v, TensorDictBase):
             parts.append([k, Raw(td_sx(v))])
         else:
@@ -88,13 +103,17 @@ def td_sx(td):
 
 def tree_of(td):
     """canonical nested-list form of a loaded / saved tensordict, keys in iteration order"""
-    from tensordict import LazyStackedTensorDict, NonTensorData, TensorDictBase
+    from tensordict import LazyStackedTensorDict, NonTensorData, TensorDictBase, is_tensorclass
     if isinstance(td, LazyStackedTensorDict):
         return ["lz", td.stack_dim] + [[str(i), tree_of(m)] for i, m in enumerate(td.tensordicts)]
+    if is_tensorclass(td) and not isinstance(td, NonTensorData):
+        return ["tc", type(td).__name__, tc_fields(td), ["_tensordict", tree_of(td._tensordict)]]
     out = ["n", list(td.batch_size), "cpu" if td.device is None else str(td.device)]
     for k, v in td.items():
         if isinstance(v, NonTensorData):
             out.append([k, ["nt", v.data, list(v.batch_size)]])
+        elif is_tensorclass(v):
+            out.append([k, tree_of(v)])
         elif isinstance(v, TensorDictBase):
             out.append([k, tree_of(v)])
         else:
@@ -107,6 +126,8 @@ def sort_tree(t):
         return t[:3] + sorted(([k, sort_tree(v)] for k, v in t[3:]), key=lambda kv: kv[0])
     if isinstance(t, list) and t and t[0] == "lz":
         return t[:2] + [[k, sort_tree(v)] for k, v in t[2:]]
+    if isinstance(t, list) and t and t[0] == "tc":
+        return t[:3] + [[k, sort_tree(v)] for k, v in t[3:]]
     return t
 
 
@@ -129,6 +150,9 @@ def listing(root: Path):
                 out.append([rel, ["meta", kind, m.get("data")]])
             elif kind == "LazyStackedTensorDict":
                 out.append([rel, ["meta", kind, [m.get("stack_dim"), m.get("len")], "None", []]])
+            elif kind != "TensorDict":
+                # a tensorclass: `_type` and its non-tensor fields
+                out.append([rel, ["meta", kind, ",".join(f"{k}={v}" for k, v in sorted(m.items()) if k != "_type") or "nofields"]])
             else:
                 ents = []
                 for k, v in m.items():
@@ -153,6 +177,8 @@ def model_listing(l):
             out.append([path, ["bytes", f[1]]])
         elif f[1] == "NonTensorData":
             out.append([path, ["meta", "NonTensorData", f[2]]])
+        elif f[1] not in ("TensorDict", "LazyStackedTensorDict"):
+            out.append([path, ["meta", f[1], f[2] if not isinstance(f[2], (int, float)) else str(f[2])]])
         else:
             out.append([path, ["meta", f[1], list(f[2]), f[3], sorted([list(e[:2]) + [e[2]] + ([list(e[3])] if len(e) > 3 else []) for e in f[4]])]])
     return sorted(out, key=lambda x: x[0])
@@ -167,6 +193,8 @@ def model_tree(t):
         return ["nt", t[1], list(t[2])]
     if t[0] == "lz":
         return ["lz", t[1]] + [[str(k), model_tree(v)] for k, v in t[2:]]
+    if t[0] == "tc":
+        return ["tc", t[1], t[2]] + [[str(k), model_tree(v)] for k, v in t[3:]]
     return ["n", list(t[1]), t[2]] + [[k, model_tree(v)] for k, v in t[3:]]
 
 
@@ -242,7 +270,12 @@ def run_model_streams(run, drv):
                                 getattr(src, api)(d, num_threads=nt)
                             ex = pp.executors[0]
                             if len(ex.submitted) == len(o) and ex.ran != list(o):
-                                raise Infra("permuting executor did not realise the order")
+                                if "(tc " in tsx:
+                                    # a tensorclass that is not saved in place waits for the tasks of its own tensordict before it is rebuilt
+                                    # (tensorclass.py:_memmap_): the tasks submitted so far run at that point, the rest of the order afterwards
+                                    run.count("save.order_restricted_by_a_wait_inside", 1)
+                                else:
+                                    raise Infra("permuting executor did not realise the order")
                             # a `_populate_memmap` task for a tensor without elements is submitted but writes nothing
                             targets = [t for t in task_targets(ex, d) if not t[-1].endswith(".memmap") or (d / Path(*t)).exists()]
                         else:
@@ -486,6 +519,11 @@ def td_from_tree(t):
     if t[0] == "lz":
         from tensordict import LazyStackedTensorDict
         return LazyStackedTensorDict(*[td_from_tree(v) for _, v in t[2:]], stack_dim=t[1])
+    if t[0] == "tc":
+        import c11_trips
+        inner = td_from_tree(t[3][1])
+        fields = dict(kv.split("=", 1) for kv in str(t[2]).split(",")) if t[2] != "nofields" else {}
+        return c11_trips.tc_cls()(**{k_: v_ for k_, v_ in inner.items()}, **fields, batch_size=inner.batch_size)
     assert t[0] == "n"
     d = {}
     for k, v in t[3:]:
